@@ -2263,6 +2263,9 @@ class Model:
 
                 if par.fcn_str and par._precompute:
                     # If the parameter is marked for precomputation, then insert it now
+                    if par.skip_function and cascade_par.has_values(par.pop.name):
+                        # The function is skipped for part of the simulation (e.g. a parameter scenario), so the parset values are needed there
+                        par.vals = cascade_par.interpolate(tvec=self.t, pop_name=par.pop.name) * par.scale_factor
                     par.update()
                 elif cascade_par.has_values(par.pop.name):
                     # If the databook contains values, then insert them now
